@@ -1,5 +1,8 @@
-From Coq Require Import Extraction ExtrOcamlBasic.
-From Verif Require Import Lib.Sx Model.Faults Proofs.GenTable Proofs.GenFaults Gen.Dispatch.
-(* the executable model is instantiated with the facts regenerated from the source on this run *)
-Definition run_main := run_faults gen_table pathcond_defs gen_react gen_wrapped gen_cstor gen_cretr gen_clist gen_cmlsd.
+From Coq Require Import ZArith Extraction ExtrOcamlBasic.
+From Verif Require Import Lib.Sx Model.Faults Model.FaultsRound Proofs.GenTable Proofs.GenFaults Gen.Dispatch Gen.Faultsites.
+(* the executable model is instantiated with the facts regenerated from the source on this run;
+   fn 2 = one wake-up of the dispatcher (Model/FaultsRound.v) *)
+Definition run_main (fn : Z) (a : sx) : sx :=
+  if (fn =? 2)%Z then run_round gen_react dispatcher_try_per_task a
+  else run_faults gen_table pathcond_defs gen_react gen_wrapped gen_cstor gen_cretr gen_clist gen_cmlsd fn a.
 Extraction "../build/ml/c13.ml" run_main.
